@@ -51,11 +51,14 @@ def main():
     other = {k: v for k, v in r.items() if "seeded_demo" not in k}
     meta["with_change"] = {"existing_passed": sum(v[0] for k, v in other.items() if not k.startswith("doc:")), "existing_failed": sum(v[1] for v in other.values()), "doctests_passed": sum(v[0] for k, v in other.items() if k.startswith("doc:")), "demo": demo_res}
     # 1b. without the change
-    sh("git stash push -- %s" % " ".join(changed), cwd=wt)
+    rcr, outr = sh("git apply -R patch.diff", cwd=wt)
+    if rcr != 0:
+        print("cannot revert the change in the worktree:", outr)
+        return 2
     rc2, out2 = sh("cargo test --workspace --offline --no-fail-fast --test seeded_demo", cwd=wt, env=env)
     r2 = results(out2)
     meta["without_change"] = {"demo": {k: v for k, v in r2.items() if "seeded_demo" in k}}
-    sh("git stash pop", cwd=wt)
+    sh("git apply patch.diff", cwd=wt)
     ok = meta["with_change"]["existing_failed"] == 0 and meta["with_change"]["existing_passed"] >= 51 and any(v[1] > 0 for v in demo_res.values()) and all(v[1] == 0 for v in meta["without_change"]["demo"].values()) and bool(meta["without_change"]["demo"])
     meta["confirmed"] = ok
     # 2. run the checks on /repo with the patch applied
@@ -73,7 +76,7 @@ def main():
         for p in props:
             if not os.path.exists(os.path.join(VERIF, "pv", "rules", p + ".py")):
                 continue
-            rc, o = sh("./check %s" % p, cwd=VERIF, env=dict(os.environ, PV_SELFTEST="1"))
+            rc, o = sh("./check %s --no-evidence" % p, cwd=VERIF, env=dict(os.environ, PV_SELFTEST="1"))
             v = [l for l in o.splitlines() if l.startswith("VIOLATION")]
             if rc != 0 or v:
                 fired[p] = [re.sub(r"replay=\S+ ", "", l)[:260] for l in v[:4]]
@@ -89,11 +92,8 @@ def main():
         shutil.copy(os.path.join(wt, f), os.path.join(d, os.path.basename(f)))
     if os.path.exists(wt + "/SEED_REPORT.md"):
         shutil.copy(wt + "/SEED_REPORT.md", d + "/SEED_REPORT.md")
-    meta["what_was_run"] = ["cargo test --workspace --offline --no-fail-fast (worktree, change applied)", "git stash push -- <changed>; cargo test --test seeded_demo; git stash pop", "git -C /repo apply patch.diff; ./check <each property>; git -C /repo checkout -- ."]
+    meta["what_was_run"] = ["cargo test --workspace --offline --no-fail-fast (worktree, change applied)", "git apply -R patch.diff; cargo test --test seeded_demo; git apply patch.diff", "git -C /repo apply patch.diff; ./check <each property>; git -C /repo checkout -- ."]
     json.dump(meta, open(d + "/meta.json", "w"), indent=1)
-    # restore evidence of the unchanged tree for the checks that fired
-    for p in fired:
-        sh("./check %s" % p, cwd=VERIF)
     print(json.dumps({k: meta[k] for k in ("name", "confirmed", "caught_by_own_property")}), "fired:", sorted(fired))
     for p, v in fired.items():
         for l in v[:2]:
